@@ -49,6 +49,18 @@ def build_file(name, fps, arrangement, fill, regime, final_nl, bom=False, blank_
         line.append(("t", F[1]))
         lines.append(line)
         lines.append([("t", F[2])])
+    elif arrangement[0] == "one-line+own":
+        # all patterns on one line in the given order, and each pattern once more on a line of its own
+        line = [("t", "all: ")]
+        for k, idx in enumerate(arrangement[1]):
+            if k:
+                line.append(("t", " | also "))
+            line.append(("o", fps[idx]))
+        line.append(("t", F[1]))
+        lines.append(line)
+        for k, fp in enumerate(fps):
+            lines.append([("t", f"again {k}: "), ("o", fp), ("t", F[1])])
+        lines.append([("t", F[2])])
     elif arrangement[0] == "repeat":
         for r in range(arrangement[1]):
             for fp in fps:
